@@ -497,7 +497,15 @@ class FunctionVC:
                 I.env[p] = I.eval(a.defaults[di])
         try:
             try:
-                I.exec_block(node.body)
+                body = node.body
+                npre = c.ghost.get('prefix_stmts')
+                if npre:
+                    # PARTIAL contract: only the first statements of the body are under contract
+                    # (stated in the contract's notes and in the evidence); nothing is claimed
+                    # about the rest, and the postconditions must be about this prefix only
+                    body = [s_ for s_ in body if not (isinstance(s_, ast.Expr) and
+                                                      isinstance(s_.value, ast.Constant))][:npre]
+                I.exec_block(body)
                 result = NONE
             except Returned as r:
                 result = r.value
